@@ -248,8 +248,31 @@ fn run_language(bytes: &[u8]) -> Result<usize, (String, String)> {
     let routes: Vec<&str> = ROUTE_NAMES.iter().copied().filter(|r| len <= 200 || !matches!(*r, "from_utf8" | "from_code_points" | "from_ascii")).collect();
     let n1 = routes[rd.below(routes.len())];
     let n2 = routes[rd.below(routes.len())];
-    let r1 = (n1, route_expr(n1, &t, rd.below(8)));
-    let r2 = (n2, route_expr(n2, &t, rd.below(8)));
+    let mut r1 = (n1, route_expr(n1, &t, rd.below(8)));
+    let mut r2 = (n2, route_expr(n2, &t, rd.below(8)));
+    let mut t = t;
+    if rd.chance(1, 4) {
+        // contents that are the text of a number, a boolean or nil, produced by converting the value
+        // (String.from, an interpolation that consists of that one expression, nested interpolations,
+        // arithmetic first) or written out
+        const VALUES: &[(&str, &str)] = &[("42", "42"), ("7", "7"), ("0", "0"), ("255", "255"), ("0.5", "0.5"), ("1000000", "1000000"), ("true", "true"), ("false", "false"), ("nil", "nil"), ("(40 + 2)", "42"), ("(1 / 2)", "0.5"), ("-3", "-3")];
+        let (expr, text) = VALUES[rd.below(VALUES.len())];
+        let vroute = |rd: &mut Rd| -> (&'static str, String) {
+            match rd.below(9) {
+                0 => ("value_literal", format!("\"{}\"", text)),
+                1 => ("value_from", format!("String.from({})", expr)),
+                2 | 3 => ("value_interp_single", format!("\"${{{}}}\"", expr)),
+                4 => ("value_interp_nested", format!("\"${{\"${{{}}}\"}}\"", expr)),
+                5 if text.len() > 1 => ("value_concat", format!("\"{}\" + \"{}\"", &text[..1], &text[1..])),
+                6 => ("value_interp_string", format!("\"${{\"{}\"}}\"", text)),
+                7 => ("value_interp_fn", format!("(|v| \"${{v}}\")({})", expr)),
+                _ => ("value_slice", format!("\"<{}>\"[1..{}]", text, 1 + text.len())),
+            }
+        };
+        r1 = vroute(&mut rd);
+        r2 = vroute(&mut rd);
+        t = text.to_string();
+    }
     let mut miss = near_miss(&t, rd.below(6));
     if miss == format!("\"{}\"", t) {
         miss = format!("\"{}~\"", t);
@@ -355,7 +378,7 @@ impl Property for C11 {
     }
 
     fn rule(&self) -> String {
-        "cases: (table_exhaustive) every history of up to 6 intern/lookup operations over 4 texts under 3 hash functions (all texts one hash; shared low bits; the real hash) — thorough enumerates all of them, quick those whose last two operations are the simplest; (table_random) histories of up to 3x each growth point (4..4096 slots) on the interpreter's own intern-table type driven through a hook with harness-chosen hash functions: identical full hashes, identical low k bits (long probe chains, wrap-around), real hashes with the low 12 bits cleared, real hashes; (api) 200-3200 calls of Vm::new_gc_obj_string over multi-byte texts, revisits, and texts found by search to collide in the low 12 bits of the real hash; (language) the same contents (3-4100 bytes, lengths around multiples of 8, beyond 32, and around 256, 1024 and 4096) built by two of 16 routes (literal, escapes, +, interpolation, slices and split pieces that start at every byte offset 0-7 inside their source string, replace, String.from, from_utf8, from_code_points, from_ascii, iteration) with 50-3000 strings of churn in between and a one-byte near miss, compared with ==, used as map keys alone and inside tuples, and names (global, method, field, module attribute) resolved across five separately compiled snippets on one interpreter. Oracle: intern-set model keyed by (hash, bytes): same key <=> same entry, new key <=> new distinct entry, every entry still found after every growth; pointer identity <=> byte equality at the API; outputs known by construction at language level. Non-trivial: the history crosses a growth with a collision chain of >=3 entries, or any api/language case; distinct by the case bytes.".into()
+        "cases: (table_exhaustive) every history of up to 6 intern/lookup operations over 4 texts under 3 hash functions (all texts one hash; shared low bits; the real hash) — thorough enumerates all of them, quick those whose last two operations are the simplest; (table_random) histories of up to 3x each growth point (4..4096 slots) on the interpreter's own intern-table type driven through a hook with harness-chosen hash functions: identical full hashes, identical low k bits (long probe chains, wrap-around), real hashes with the low 12 bits cleared, real hashes; (api) 200-3200 calls of Vm::new_gc_obj_string over multi-byte texts, revisits, and texts found by search to collide in the low 12 bits of the real hash; (language) the same contents (3-4100 bytes, lengths around multiples of 8, beyond 32, and around 256, 1024 and 4096) built by two of 16 routes (literal, escapes, +, interpolation, slices and split pieces that start at every byte offset 0-7 inside their source string, replace, String.from, from_utf8, from_code_points, from_ascii, iteration; a quarter of the cases use the text of a number, boolean or nil produced by String.from, by an interpolation consisting of that one expression, nested or inside a lambda, by concatenation, slicing or written out) with 50-3000 strings of churn in between and a one-byte near miss, compared with ==, used as map keys alone and inside tuples, and names (global, method, field, module attribute) resolved across five separately compiled snippets on one interpreter. Oracle: intern-set model keyed by (hash, bytes): same key <=> same entry, new key <=> new distinct entry, every entry still found after every growth; pointer identity <=> byte equality at the API; outputs known by construction at language level. Non-trivial: the history crosses a growth with a collision chain of >=3 entries, or any api/language case; distinct by the case bytes.".into()
     }
 
     fn render(&self, family: &str, bytes: &[u8]) -> String {
